@@ -98,6 +98,30 @@ const TARGETS: &[Target] = &[
         calls: &["drain_sync", "iter_hot", "take", "make_cold", "make_hot", "run", "drop", "remove", "reset", "has_hot"],
     },
     Target {
+        lean: "queueRemove",
+        file: "compio-executor/src/queue.rs",
+        ty: "TaskQueue",
+        tr: None,
+        func: "remove",
+        calls: &["get", "get_mut", "unlink", "link_tail", "remove", "and_then"],
+    },
+    Target {
+        lean: "queueMakeHot",
+        file: "compio-executor/src/queue.rs",
+        ty: "Inner",
+        tr: None,
+        func: "make_hot",
+        calls: &["get", "unlink", "link_tail", "remove"],
+    },
+    Target {
+        lean: "queueMakeCold",
+        file: "compio-executor/src/queue.rs",
+        ty: "Inner",
+        tr: None,
+        func: "make_cold",
+        calls: &["get", "unlink", "link_tail", "remove"],
+    },
+    Target {
         lean: "clear",
         file: "compio-executor/src/lib.rs",
         ty: "Executor",
@@ -134,7 +158,12 @@ impl<'ast, 't> Visit<'ast> for Walk<'t> {
         }
         let name = m.method.to_string();
         if self.calls.contains(&name.as_str()) {
-            self.rec(&name);
+            // keep the const / type arguments of the call (`unlink::<HOT>`, `finish_setting_waker::<true>`)
+            let full = match &m.turbofish {
+                Some(t) => format!("{name}{}", compact(t)),
+                None => name.clone(),
+            };
+            self.rec(&full);
             if let Some(last) = m.args.last() {
                 let a = compact(last);
                 if a.starts_with("Ordering::") {
@@ -222,6 +251,84 @@ impl<'ast, 't> Visit<'ast> for Walk<'t> {
     fn visit_stmt_macro(&mut self, _m: &'ast syn::StmtMacro) {}
 }
 
+/// `Remote::poll`: every statement-level `finish_setting_waker::<B>()` call, in source order, with its innermost
+/// `if` guard and whether the returned snapshot is re-examined: bound to a name (`let x = ..` / `x = ..`) AND the
+/// next statement is `if x.is_completed() || x.is_cancelled() { .. continue .. }`.
+struct SiteWalk {
+    guard: Vec<String>,
+    sites: Vec<(String, String, bool)>,
+}
+
+fn fsw_call(e: &syn::Expr) -> Option<String> {
+    match e {
+        syn::Expr::MethodCall(m) if m.method == "finish_setting_waker" => {
+            Some(m.turbofish.as_ref().map(|t| compact(t)).unwrap_or_default())
+        }
+        syn::Expr::Paren(p) => fsw_call(&p.expr),
+        _ => None,
+    }
+}
+
+impl SiteWalk {
+    /// (generic argument, name the result is bound to) if `st` is a statement-level call
+    fn site_of(st: &syn::Stmt) -> Option<(String, Option<String>)> {
+        match st {
+            syn::Stmt::Local(l) => {
+                let init = l.init.as_ref()?;
+                let g = fsw_call(&init.expr)?;
+                Some((g, Some(compact(&l.pat))))
+            }
+            syn::Stmt::Expr(syn::Expr::Assign(a), _) => {
+                let g = fsw_call(&a.right)?;
+                Some((g, Some(compact(&a.left))))
+            }
+            syn::Stmt::Expr(e, _) => fsw_call(e).map(|g| (g, None)),
+            _ => None,
+        }
+    }
+
+    fn rechecked(name: &str, next: Option<&syn::Stmt>) -> bool {
+        let Some(syn::Stmt::Expr(syn::Expr::If(i), _)) = next else { return false };
+        let c = compact(&i.cond);
+        c.contains(&format!("{name}.is_completed()"))
+            && c.contains(&format!("{name}.is_cancelled()"))
+            && c.contains("||")
+            && compact(&i.then_branch).contains("continue")
+    }
+}
+
+impl<'ast> Visit<'ast> for SiteWalk {
+    fn visit_block(&mut self, b: &'ast syn::Block) {
+        for (i, st) in b.stmts.iter().enumerate() {
+            if let Some((g, bound)) = Self::site_of(st) {
+                let re = match &bound {
+                    Some(n) => Self::rechecked(n, b.stmts.get(i + 1)),
+                    None => false,
+                };
+                let guard = self.guard.last().cloned().unwrap_or_default();
+                self.sites.push((g, guard, re));
+            }
+        }
+        syn::visit::visit_block(self, b);
+    }
+
+    fn visit_expr_if(&mut self, i: &'ast syn::ExprIf) {
+        let c = compact(&i.cond);
+        self.visit_expr(&i.cond);
+        self.guard.push(format!("if {c}"));
+        self.visit_block(&i.then_branch);
+        self.guard.pop();
+        if let Some((_, e)) = &i.else_branch {
+            self.guard.push(format!("else({c})"));
+            self.visit_expr(e);
+            self.guard.pop();
+        }
+    }
+
+    fn visit_expr_macro(&mut self, _m: &'ast syn::ExprMacro) {}
+    fn visit_stmt_macro(&mut self, _m: &'ast syn::StmtMacro) {}
+}
+
 fn find_fn<'a>(file: &'a syn::File, t: &Target) -> Option<&'a syn::ImplItemFn> {
     for it in &file.items {
         let syn::Item::Impl(im) = it else { continue };
@@ -286,6 +393,26 @@ pub fn generate(repo: &Path) -> Res<String> {
             }
             s.push_str("]\n\n");
         }
+    }
+    // Remote::poll: the shape of every finish_setting_waker call site
+    {
+        let path = "compio-executor/src/task/remote.rs";
+        let file = parse_file(&repo.join(path))?;
+        let t = Target { lean: "", file: path, ty: "Remote<'a>", tr: None, func: "poll", calls: &[] };
+        let f = find_fn(&file, &t).ok_or(format!("{path}: fn Remote::poll not found"))?;
+        let mut w = SiteWalk { guard: vec![], sites: vec![] };
+        w.visit_block(&f.block);
+        if w.sites.is_empty() {
+            return Err(format!("{path}: Remote::poll: no finish_setting_waker call site found"));
+        }
+        writeln!(s, "/-- `Remote::poll` ({path}): every statement-level `finish_setting_waker::<B>()` call, block by block (outer block first):").unwrap();
+        writeln!(s, "(const argument, innermost `if` guard, the returned snapshot is bound and the NEXT statement is").unwrap();
+        writeln!(s, "`if x.is_completed() || x.is_cancelled() {{ .. continue }}`) -/").unwrap();
+        writeln!(s, "def remotePollFinishSites : List (String × String × Bool) := [").unwrap();
+        for (i, (g, gd, re)) in w.sites.iter().enumerate() {
+            writeln!(s, "  ({}, {}, {}){}", lean_str(g), lean_str(gd), re, if i + 1 < w.sites.len() { "," } else { "" }).unwrap();
+        }
+        s.push_str("]\n\n");
     }
     s.push_str("end Compio.Gen.TaskOrder\n");
     Ok(s)
